@@ -84,7 +84,21 @@ func main() {
 	if *only != "" {
 		onlyRe = regexp.MustCompile(*only)
 	}
-	wd := filepath.Join(*work, "p"+*prop)
+	// one work directory per process: concurrent checks (of the same property too) must not delete
+	// each other's query files; directories left behind by processes that no longer run are removed
+	if ents, err := os.ReadDir(*work); err == nil {
+		for _, en := range ents {
+			parts := strings.Split(en.Name(), ".")
+			if len(parts) == 3 && strings.HasPrefix(parts[0], "p") {
+				if _, err := os.Stat("/proc/" + parts[2]); err != nil {
+					os.RemoveAll(filepath.Join(*work, en.Name()))
+				}
+			} else if strings.HasPrefix(en.Name(), "p") && !strings.Contains(en.Name(), ".") {
+				os.RemoveAll(filepath.Join(*work, en.Name())) // layout of earlier versions
+			}
+		}
+	}
+	wd := filepath.Join(*work, fmt.Sprintf("p%s.%s.%d", *prop, *tier, os.Getpid()))
 	os.RemoveAll(wd)
 	os.MkdirAll(wd, 0o755)
 
@@ -151,6 +165,9 @@ func main() {
 	}
 	if *writeLedger {
 		rep.writeLedger(filepath.Join(*verifDir, "ledger.json"))
+	}
+	if rep.exitCode == 0 && len(rep.known) == 0 {
+		os.RemoveAll(wd) // nothing refers to the query files
 	}
 	os.Exit(rep.exitCode)
 }
